@@ -40,7 +40,8 @@ def marginal(nested, shape, keep):
 def resolve_axes(h, axes_spec):
     args = []
     for kind, i in axes_spec:
-        args.append(i if kind == "index" else h.axis_names[i])
+        # an index may also be a numpy integer (np.argmax(...), elements of an index array)
+        args.append(i if kind == "index" else (np.int64(i) if kind == "np_index" else h.axis_names[i]))
     return args
 
 
@@ -126,8 +127,8 @@ def projection_cases(draw, tier="quick"):
     d = len(spec["axes"])
     k = draw(st.integers(1, d - 1))
     keep = draw(st.permutations(list(range(d))))[:k]
-    by = draw(st.sampled_from(["index", "name", "mixed"]))
-    axes = [[("index" if by == "index" or (by == "mixed" and draw(st.booleans())) else "name"), i] for i in keep]
+    by = draw(st.sampled_from(["index", "name", "mixed", "np_index"]))
+    axes = [[("np_index" if by == "np_index" else ("index" if by == "index" or (by == "mixed" and draw(st.booleans())) else "name")), i] for i in keep]
     return {"spec": spec, "axes": axes, "second": draw(st.one_of(st.none(), st.lists(st.integers(0, 3), min_size=1, max_size=2)))}
 
 
@@ -176,7 +177,7 @@ def check_misc(case, ctx: Ctx):
         ctx.nt(shape[0] != shape[1] and spec["err2"] is not None)
     elif kind == "accumulate":
         ax = case["axis"] % d
-        arg = ax if case["by"] == "index" else h.axis_names[ax]
+        arg = ax if case["by"] == "index" else (np.intp(ax) if case["by"] == "np_index" else h.axis_names[ax])
         a = ctx.call(f"accumulate({arg!r})", h.accumulate, arg)
         require(type(a) is type(h), "class", type(a).__name__)
         want = {}
@@ -192,6 +193,8 @@ def check_misc(case, ctx: Ctx):
             want[idx] = tot
         for idx, w in want.items():
             require(F(a.frequencies[idx]) == w, "accumulate_value", lambda: f"axis {ax} cell {idx}: {a.frequencies[idx]!r} want {float(w)}")
+        require(a.dtype == np.asarray(a.frequencies).dtype == np.asarray(a.errors2).dtype, "accumulate_dtype_inconsistent",
+                f"dtype {a.dtype}, frequencies {np.asarray(a.frequencies).dtype}, errors2 {np.asarray(a.errors2).dtype}")
         require([b["bins"] for b in snapshot(a)["binnings"]] == [b["bins"] for b in before["binnings"]], "accumulate_bins", "")
         require(list(a.axis_names) == list(h.axis_names), "accumulate_names", "")
         ctx.nt(len(set(shape)) == len(shape))
@@ -214,7 +217,7 @@ def misc_cases(draw, tier="quick"):
         spec["class"] = None
     else:
         spec = draw(nd_spec(dims=(2, 3, 4)))
-    return {"kind": kind, "spec": spec, "axis": draw(st.integers(0, 3)), "by": draw(st.sampled_from(["index", "name"])),
+    return {"kind": kind, "spec": spec, "axis": draw(st.integers(0, 3)), "by": draw(st.sampled_from(["index", "name", "np_index"])),
             "then": draw(st.sampled_from(["fill", "scale"]))}
 
 
